@@ -153,6 +153,11 @@ def decide(idx, seed, tier, cls, given=None):
                     gc.call_main(rg, gc.gen_argv(q["seed"], q["width"], q["length"], q["p_robot"], q["p_light"], q["p_tile"], q["p_loose"], q["max_reward"], q["force_down"]))
                     res["stats"]["reruns_over_existing_file"] = 1
                     case["rerun"] = True
+                    try:
+                        for f0 in sc_.listing():
+                            cr.read_dict_from_file(f0)
+                    except Exception:
+                        pass
                 exc, log, writes = gc.call_main(rg, argv)
                 if exc is not None:
                     problems.append({"problem": "generator raised %s: %s" % (type(exc).__name__, str(exc)[:200])})
@@ -176,12 +181,27 @@ def decide(idx, seed, tier, cls, given=None):
                 moves, rewards, loose, pr, pl, pt = given["manual"]
             res["key"] = repr((moves, loose, rewards, pr, pl, pt))
             case = {"manual": [moves, rewards, loose, pr, pl, pt], "cls": cls}
+            import copy as _copy
+            board_before = _copy.deepcopy((moves, rewards, loose))
+            if idx % 2 == 1:
+                # the same board objects used for an earlier call (e.g. one board swept over several probabilities)
+                try:
+                    mb.create_sg_from_board(moves=moves, rewards=rewards, loose_tiles=loose, prob_robot_break=min(pr + 0.2, 0.95),
+                                            prob_light_break=pl, prob_tile_break=pt)
+                    for f0 in sc_.listing():
+                        cr.read_dict_from_file(f0)
+                        os.remove(os.path.join(sc_.dir, f0))
+                except Exception:
+                    pass
+                res["stats"]["manual_second_call_same_board"] = 1
             with monitors.fs_record() as fs:
                 try:
                     mb.create_sg_from_board(moves=moves, rewards=rewards, loose_tiles=loose, prob_robot_break=pr, prob_light_break=pl, prob_tile_break=pt)
                     exc = None
                 except Exception as e:
                     exc = e
+            if (moves, rewards, loose) != board_before:
+                problems.append({"problem": "the manual entry point changed the board lists it was given", "before": board_before, "after": [moves, rewards, loose]})
             writes = fs.writes
             if exc is not None:
                 problems.append({"problem": "manual entry point raised %s: %s" % (type(exc).__name__, str(exc)[:200])})
@@ -195,10 +215,19 @@ def decide(idx, seed, tier, cls, given=None):
             monitors.MON.count("c11.files")
             res["stats"]["files_written"] = 1
             try:
-                gamesd = cr.read_dict_from_file(os.path.join(sc_.dir, files[0]))
+                gamesd = cr.read_dict_from_file(files[0])          # relative path, as a user in that directory would give it
             except Exception as e:
                 gamesd = None
                 problems.append({"problem": "the solver's reader cannot load the file: %s %s" % (type(e).__name__, str(e)[:150])})
+            if gamesd is not None:
+                import ast
+                from . import c16
+                try:
+                    want = c16.denote(ast.parse(open(files[0]).read(), mode="eval"))
+                    if not c16.same_struct(gamesd, want):
+                        problems.append({"problem": "the reader returned other games than the ones the file on disk denotes (stale or altered content)"})
+                except Exception as e:
+                    problems.append({"problem": "the generated file is not a literal dictionary: %r" % e})
             if gamesd is not None:
                 pr_, st = validate_structure(gamesd)
                 problems += pr_
